@@ -57,8 +57,9 @@ func GenPaced(t *rapid.T) CasePaced {
 				w.Sizes = append(w.Sizes, rapid.SampledFrom([]int{1, 7, 64, 1000}).Draw(t, "size"))
 			}
 		} else {
-			for j, k := 0, rapid.SampledFrom([]int{4, 8, 16}).Draw(t, "nbulk"); j < k; j++ {
-				w.Sizes = append(w.Sizes, 64<<10)
+			sz := rapid.SampledFrom([]int{64 << 10, 64 << 10, 64<<10 + 1, 300000}).Draw(t, "bulksize")
+			for j, k := 0, rapid.SampledFrom([]int{4, 8, 16}).Draw(t, "nbulk"); j < k && (j+1)*sz <= 1<<20+1<<16; j++ {
+				w.Sizes = append(w.Sizes, sz)
 			}
 		}
 		c.Waves = append(c.Waves, w)
@@ -79,7 +80,7 @@ func ExecPaced(c CasePaced) *vkit.Result {
 			return res
 		}
 		for _, sz := range w.Sizes {
-			if sz <= 0 || sz > 1<<16 {
+			if sz <= 0 || sz > 1<<20 {
 				res.Skip("malformed-wave")
 				return res
 			}
